@@ -426,6 +426,66 @@ func init() {
 		}
 		return Iface{}, true
 	}
+	// sync.Map: an association list in per-path state (keys compared as
+	// interface values; a symbolic comparison forks).
+	smFind := func(p *Path, key *Value, k Value) int {
+		ki, _ := k.(Iface)
+		for i, e := range p.syncMaps[key] {
+			eq := p.equals(nil, e[0], ki)
+			if b, ok := eq.(bool); ok {
+				if b {
+					return i
+				}
+				continue
+			}
+			if p.branch(p.term(eq, types.Typ[types.Bool])) {
+				return i
+			}
+		}
+		return -1
+	}
+	smKey := func(p *Path, a Value) *Value {
+		key, _ := a.(*Value)
+		if key == nil {
+			p.runtimePanic("nil *sync.Map")
+		}
+		if p.syncMaps == nil {
+			p.syncMaps = map[*Value][][2]Value{}
+		}
+		return key
+	}
+	externals["(*sync.Map).Load"] = func(p *Path, _ *frame, _ *ssa.Function, a []Value) (Value, bool) {
+		key := smKey(p, a[0])
+		if i := smFind(p, key, a[1]); i >= 0 {
+			return Tuple{p.syncMaps[key][i][1], true}, true
+		}
+		return Tuple{Iface{}, false}, true
+	}
+	externals["(*sync.Map).Store"] = func(p *Path, _ *frame, _ *ssa.Function, a []Value) (Value, bool) {
+		key := smKey(p, a[0])
+		if i := smFind(p, key, a[1]); i >= 0 {
+			p.syncMaps[key][i][1] = a[2]
+		} else {
+			p.syncMaps[key] = append(p.syncMaps[key], [2]Value{a[1], a[2]})
+		}
+		return nil, true
+	}
+	externals["(*sync.Map).LoadOrStore"] = func(p *Path, _ *frame, _ *ssa.Function, a []Value) (Value, bool) {
+		key := smKey(p, a[0])
+		if i := smFind(p, key, a[1]); i >= 0 {
+			return Tuple{p.syncMaps[key][i][1], true}, true
+		}
+		p.syncMaps[key] = append(p.syncMaps[key], [2]Value{a[1], a[2]})
+		return Tuple{a[2], false}, true
+	}
+	externals["(*sync.Map).Delete"] = func(p *Path, _ *frame, _ *ssa.Function, a []Value) (Value, bool) {
+		key := smKey(p, a[0])
+		if i := smFind(p, key, a[1]); i >= 0 {
+			l := p.syncMaps[key]
+			p.syncMaps[key] = append(append([][2]Value{}, l[:i]...), l[i+1:]...)
+		}
+		return nil, true
+	}
 	externals["(*strings.Builder).WriteString"] = func(p *Path, _ *frame, _ *ssa.Function, a []Value) (Value, bool) {
 		if _, ok := a[1].(*AbsNum); ok {
 			p.unsupported("WriteString(abstract number text)")
